@@ -323,3 +323,89 @@ func ghostHintParams(requires []types.Type, providerFnSig *types.Signature, prov
 	vs.Assert("hint_all_parameters_seen", len(requires) == len(vs.YieldSeq(providerFnSig.Params().Variables())))
 	vs.Assert("hint_signature_is_the_type_argument", providerFnSig == vs.As[*types.Signature](vs.As[*types.Named](providerType).TypeArgs().At(0)))
 }
+
+// ---------------------------------------------------------------------------
+// front end: one argument of kessoku.Inject becomes one ProviderSpec
+// ---------------------------------------------------------------------------
+
+// ASSUMED (sort.Slice takes its slice as `any`, which kvc does not box): one spec per exported field, all present.
+//
+//kvc:contract extractExportedFields
+func contract_extractExportedFields(t types.Type) (result []*StructFieldSpec, err error) {
+	vs.Ensures("fields_present", vs.Implies(err == nil, vs.Forall(len(result), func(i int) bool {
+		return result[i] != nil && !vs.Old(vs.IsAllocated(result[i]))
+	})))
+	vs.Modifies()
+	vs.Allocates()
+	return
+}
+
+// ASSUMED (ast.Inspect with a closure): rewrites package qualifiers inside the expression and records imports; touches
+// identifier names, the import table and the name pool only.
+//
+//kvc:contract (*Parser).collectDependencies
+func contract_Parser_collectDependencies(p *Parser, expr ast.Expr, typeInfo *types.Info, imports map[string]*Import, varPool *VarPool) (result ast.Expr, refs map[string]*Import) {
+	vs.Ensures("same_expression", result == expr)
+	vs.Modifies(vs.FieldOfAll(vs.As[*ast.Ident](expr).Name), imports, varPool.vars)
+	vs.Allocates()
+	return
+}
+
+// ASSUMED here (see frontend_bounded for the executed check): the initialiser of a package-level variable.
+//
+//kvc:contract (*Parser).getVarDecl
+func contract_Parser_getVarDecl(p *Parser, pkg *packages.Package, obj *types.Var) (result ast.Expr) {
+	vs.Modifies()
+	return
+}
+
+// ghost: what parseProviderType said about the argument being turned into a ProviderSpec, and whether this call is
+// the one that appends (a Set is expanded by recursive calls and appends nothing itself)
+var (
+	gParsed   *parseProviderTypeResult
+	gAppended bool
+)
+
+//kvc:ghost (*Parser).parseProviderArgument before "providerType := pkg.TypesInfo.TypeOf(arg)"
+func ghostArgStart() { gAppended = false }
+
+//kvc:ghost (*Parser).parseProviderArgument after "result, err := p.parseProviderType(pkg, providerType, varPool)"
+func ghostArgParsed(result *parseProviderTypeResult) { gParsed = result }
+
+//kvc:ghost (*Parser).parseProviderArgument after "build.Providers = append(build.Providers, &ProviderSpec{"
+func ghostArgAppended() { gAppended = true }
+
+// carriesDeclaration: the spec carries exactly what was read off the provider's type
+func carriesDeclaration(s *ProviderSpec, r *parseProviderTypeResult) bool {
+	return s != nil && s.IsAsync == r.IsAsync && s.IsReturnError == r.IsReturnError &&
+		vs.SameSlice(s.Requires, r.Requires) && len(s.Provides) == len(r.Provides) &&
+		vs.Forall(len(s.Provides), func(i int) bool { return vs.SameSlice(s.Provides[i], r.Provides[i]) }) &&
+		vs.Implies(r.IsStruct, s.Type == ProviderTypeStruct && s.StructType == r.StructType) &&
+		vs.Implies(!r.IsStruct, s.Type == ProviderTypeFunction)
+}
+
+//kvc:contract (*Parser).parseProviderArgument
+func contract_Parser_parseProviderArgument(p *Parser, pkg *packages.Package, kessokuPackageScope *types.Scope, arg ast.Expr, build *BuildDirective, imports map[string]*Import, fileImports []*ast.ImportSpec, varPool *VarPool) (err error) {
+	vs.Requires(p != nil && pkg != nil && pkg.TypesInfo != nil && kessokuPackageScope != nil && build != nil && varPool != nil)
+	// the providers collected so far are kept, in order
+	vs.Ensures("providers_only_appended", len(build.Providers) >= vs.Old(len(build.Providers)) &&
+		vs.Forall(vs.Old(len(build.Providers)), func(i int) bool { return build.Providers[i] == vs.Old(build.Providers)[i] }))
+	// a provider expression (not a Set) becomes exactly one spec, which carries what parseProviderType read off its type:
+	// Async mark, fallibility, requirements, result groups, struct expansion
+	vs.Ensures("one_spec_per_provider_carrying_its_declaration", vs.Implies(err == nil && gAppended,
+		len(build.Providers) == vs.Old(len(build.Providers))+1 && carriesDeclaration(build.Providers[len(build.Providers)-1], gParsed)))
+	vs.Modifies(build.Providers, imports, varPool.vars, vs.FieldOfAll(vs.As[*ast.Ident](arg).Name), gParsed, gAppended,
+		gInnerAsync, gInnerErr, gInnerStruct, gInnerType, gInnerRequires, gInnerProvides)
+	vs.Allocates()
+	return
+}
+
+//kvc:loop (*Parser).parseProviderArgument "for _, setArg := range callExpr.Args"
+func inv_parseProviderArgument_set(p *Parser, pkg *packages.Package, kessokuPackageScope *types.Scope, build *BuildDirective, varPool *VarPool) {
+	vs.Invariant("env", p != nil && pkg != nil && pkg.TypesInfo != nil && kessokuPackageScope != nil && build != nil && varPool != nil)
+	vs.Invariant("providers_only_appended", len(build.Providers) >= vs.Old(len(build.Providers)) &&
+		vs.Forall(vs.Old(len(build.Providers)), func(i int) bool { return build.Providers[i] == vs.Old(build.Providers)[i] }))
+}
+
+//kvc:ghost (*Parser).parseProviderArgument after "for _, setArg := range callExpr.Args"
+func ghostArgSetDone() { gAppended = false }
